@@ -21,6 +21,8 @@ package tds
 //@ ghost field BytesChannel.$dry bool
 //@ ghost field BytesChannel.$out [int]int
 //@ ghost field BytesChannel.$w int
+//@ # $readable: the channel is used under the read discipline (receive side)
+//@ ghost field BytesChannel.$readable bool
 
 //@ pred chwf(ch BytesChannel) { 0 <= ch.$r && ch.$r <= ch.$end && 0 <= ch.$w }
 //@ paraminv BytesChannel [nonnil] nonnil(this)
@@ -33,6 +35,8 @@ package tds
 
 //@ interface BytesChannel.Bytes params (n) returns (bs, err)
 //@   requires [chwf] chwf(this)
+//@   requires [n-max] n <= 281474976710656
+//@   requires [readable] this.$readable
 //@   requires [n>=0] n >= 0
 //@   modifies this.$r, this.$dry
 //@   ensures n == 0 ==> err == nil && this.$r == old(this.$r) && this.$dry == old(this.$dry) && chwf(this)
@@ -42,6 +46,8 @@ package tds
 
 //@ interface BytesChannel.String params (n) returns (s, err)
 //@   requires [chwf] chwf(this)
+//@   requires [n-max] n <= 281474976710656
+//@   requires [readable] this.$readable
 //@   requires [n>=0] n >= 0
 //@   modifies this.$r, this.$dry
 //@   ensures n == 0 ==> err == nil && this.$r == old(this.$r) && this.$dry == old(this.$dry) && chwf(this)
@@ -51,46 +57,55 @@ package tds
 
 //@ interface BytesChannel.Byte returns (v, err)
 //@   requires [chwf] chwf(this)
+//@   requires [readable] this.$readable
 //@   modifies this.$r, this.$dry
 //@   ensures rdpost(this, 1, err)
 //@   ensures err == nil ==> v == this.$in[old(this.$r)]
 //@ interface BytesChannel.Uint8 returns (v, err)
 //@   requires [chwf] chwf(this)
+//@   requires [readable] this.$readable
 //@   modifies this.$r, this.$dry
 //@   ensures rdpost(this, 1, err)
 //@   ensures err == nil ==> v == this.$in[old(this.$r)]
 //@ interface BytesChannel.Int8 returns (v, err)
 //@   requires [chwf] chwf(this)
+//@   requires [readable] this.$readable
 //@   modifies this.$r, this.$dry
 //@   ensures rdpost(this, 1, err)
 //@   ensures err == nil ==> (v - this.$in[old(this.$r)]) % 256 == 0
 //@ interface BytesChannel.Uint16 returns (v, err)
 //@   requires [chwf] chwf(this)
+//@   requires [readable] this.$readable
 //@   modifies this.$r, this.$dry
 //@   ensures rdpost(this, 2, err)
 //@   ensures err == nil ==> v == le16(this, old(this.$r))
 //@ interface BytesChannel.Int16 returns (v, err)
 //@   requires [chwf] chwf(this)
+//@   requires [readable] this.$readable
 //@   modifies this.$r, this.$dry
 //@   ensures rdpost(this, 2, err)
 //@   ensures err == nil ==> (v - le16(this, old(this.$r))) % 65536 == 0
 //@ interface BytesChannel.Uint32 returns (v, err)
 //@   requires [chwf] chwf(this)
+//@   requires [readable] this.$readable
 //@   modifies this.$r, this.$dry
 //@   ensures rdpost(this, 4, err)
 //@   ensures err == nil ==> v == le32(this, old(this.$r))
 //@ interface BytesChannel.Int32 returns (v, err)
 //@   requires [chwf] chwf(this)
+//@   requires [readable] this.$readable
 //@   modifies this.$r, this.$dry
 //@   ensures rdpost(this, 4, err)
 //@   ensures err == nil ==> (v - le32(this, old(this.$r))) % 4294967296 == 0
 //@ interface BytesChannel.Uint64 returns (v, err)
 //@   requires [chwf] chwf(this)
+//@   requires [readable] this.$readable
 //@   modifies this.$r, this.$dry
 //@   ensures rdpost(this, 8, err)
 //@   ensures err == nil ==> v == le64(this, old(this.$r))
 //@ interface BytesChannel.Int64 returns (v, err)
 //@   requires [chwf] chwf(this)
+//@   requires [readable] this.$readable
 //@   modifies this.$r, this.$dry
 //@   ensures rdpost(this, 8, err)
 //@   ensures err == nil ==> (v - le64(this, old(this.$r))) % 18446744073709551616 == 0
@@ -104,6 +119,7 @@ package tds
 //@ ghost field Package.$parsed bool
 //@ paraminv Package [no-typed-nil] tag(this) == 0 || payload(this) != 0
 //@ interface Package.ReadFrom params (ch) returns (err)
+//@   requires [readable] ch.$readable
 //@   requires [ready] this.$ready
 //@   requires [fresh-object] !this.$parsed
 //@   modifies this.$parsed
@@ -116,11 +132,13 @@ package tds
 //@   ensures [chwf] chwf(ch)
 
 //@ interface FieldFmt.ReadFrom params (ch) returns (n, err)
+//@   requires [readable] ch.$readable
 //@   modifies ch.$r, ch.$dry
 //@   ensures [neb-on-dry] ch.$dry && !old(ch.$dry) ==> err != nil && neb(err)
 //@   ensures [ok-not-dry] err == nil ==> ch.$dry == old(ch.$dry)
 //@   ensures [chwf] chwf(ch)
 //@ interface FieldData.ReadFrom params (ch) returns (n, err)
+//@   requires [readable] ch.$readable
 //@   requires [ready] this.$fdready
 //@   modifies this.*
 //@   modifies ch.$r, ch.$dry
@@ -230,7 +248,7 @@ package tds
 
 //@ func (*fieldDataBase).readFromStatus returns (n, err)
 //@   requires [ready] field.$fdready
-//@   requires [ch] nonnil(ch) && chwf(ch)
+//@   requires [readable] ch.$readable
 //@   modifies field.status, ch.$r, ch.$dry
 //@   ensures [neb-on-dry] ch.$dry && !old(ch.$dry) ==> err != nil && neb(err)
 //@   ensures [ok-not-dry] err == nil ==> ch.$dry == old(ch.$dry)
@@ -305,32 +323,37 @@ package tds
 //@ # every enqueued packet remembers the absolute stream offset of its first body
 //@ # byte in the ghost field Packet.$pos.
 //@ ghost field Packet.$pos int
-//@ # $rx marks a queue used on the receive side (read discipline); the transmit side
-//@ # (WriteBytes) has its own discipline, see C01.
-//@ ghost field PacketQueue.$rx bool
 //@ pred pqpos(q *PacketQueue) { q.indexPacket < len(q.queue) ? q.queue[q.indexPacket].$pos + q.indexData : q.$end }
 //@ pred pqvalid(q *PacketQueue, ip int, id int) { 0 <= ip && ip <= len(q.queue) && (ip < len(q.queue) ==> 0 <= id && id <= len(q.queue[ip].Data)) && (ip == len(q.queue) ==> id == 0) }
-//@ pred pqs1(q *PacketQueue) { forall j int :: 0 <= j && j < len(q.queue) ==> q.queue[j] != nil && allocated(q.queue[j]) && 0 <= q.queue[j].$pos && q.queue[j].$pos + len(q.queue[j].Data) <= q.$end }
+//@ pred pqs1at(q *PacketQueue, j int) { 0 <= j && j < len(q.queue) ==> q.queue[j] != nil && allocated(q.queue[j]) && allocated(q.queue[j].Data) && 0 <= q.queue[j].$pos && q.queue[j].$pos + len(q.queue[j].Data) <= q.$end }
+//@ pred pqs1(q *PacketQueue) { forall j int :: pqs1at(q, j) }
 //@ pred pqs2(q *PacketQueue) { 0 <= q.$end }
-//@ pred pqs3(q *PacketQueue) { forall j int :: 0 <= j && j < len(q.queue) ==> q.queue[j].$pos + len(q.queue[j].Data) == (j + 1 < len(q.queue) ? q.queue[j+1].$pos : q.$end) }
-//@ pred pqcontent(q *PacketQueue) { forall j int, i int :: 0 <= j && j < len(q.queue) && 0 <= i && i < len(q.queue[j].Data) ==> q.queue[j].Data[i] == q.$in[q.queue[j].$pos + i] }
+//@ pred pqs3at(q *PacketQueue, j int) { 0 <= j && j < len(q.queue) ==> q.queue[j].$pos + len(q.queue[j].Data) == (j + 1 < len(q.queue) ? q.queue[j+1].$pos : q.$end) }
+//@ pred pqs3(q *PacketQueue) { forall j int :: pqs3at(q, j) }
+//@ pred pqc(q *PacketQueue, j int, i int) { 0 <= j && j < len(q.queue) && 0 <= i && i < len(q.queue[j].Data) ==> q.queue[j].Data[i] == q.$in[q.queue[j].$pos + i] }
+//@ pred pqcontent(q *PacketQueue) { forall j int, i int :: pqc(q, j, i) }
 //@ pred pqwf(q *PacketQueue) { pqs1(q) && pqs2(q) && pqs3(q) && pqcontent(q) && pqvalid(q, q.indexPacket, q.indexData) && q.$r == pqpos(q) && 0 <= q.$w }
-//@ typeinv PacketQueue { [s1] this.$rx ==> pqs1(this) }
-//@ typeinv PacketQueue { [s2] this.$rx ==> pqs2(this) }
-//@ typeinv PacketQueue { [s3] this.$rx ==> pqs3(this) }
-//@ typeinv PacketQueue { [content] this.$rx ==> pqcontent(this) }
-//@ typeinv PacketQueue { [valid] this.$rx ==> pqvalid(this, this.indexPacket, this.indexData) }
-//@ typeinv PacketQueue { [pos] this.$rx ==> this.$r == pqpos(this) && 0 <= this.$w }
+//@ typeinv PacketQueue { [idx] 0 <= this.indexPacket && this.indexPacket <= len(this.queue) && 0 <= this.indexData }
+//@ pred pqelem(q *PacketQueue, j int) { 0 <= j && j < len(q.queue) ==> q.queue[j] != nil }
+//@ typeinv PacketQueue { [elems] forall j int :: pqelem(this, j) }
+//@ typeinv PacketQueue { [s1] forall j int :: this.$readable ==> pqs1at(this, j) }
+//@ typeinv PacketQueue { [s2] this.$readable ==> pqs2(this) }
+//@ typeinv PacketQueue { [s3] forall j int :: this.$readable ==> pqs3at(this, j) }
+//@ typeinv PacketQueue { [content] forall j int, i int :: this.$readable ==> pqc(this, j, i) }
+//@ typeinv PacketQueue { [valid] this.$readable ==> pqvalid(this, this.indexPacket, this.indexData) }
+//@ typeinv PacketQueue { [pos] this.$readable ==> this.$r == pqpos(this) && 0 <= this.$w }
 
-//@ func (*PacketQueue).Position returns (ip, id)
+//@ func (*PacketQueue).Position returns (ip, id) inline
 //@   modifies
 //@   ensures [same] ip == queue.indexPacket && id == queue.indexData
 //@ func (*PacketQueue).SetPosition
-//@   requires [valid] queue.$rx ==> pqvalid(queue, indexPacket, indexData)
+//@   requires [in-range] 0 <= indexPacket && indexPacket <= len(queue.queue) && 0 <= indexData
+//@   requires [valid] queue.$readable ==> pqvalid(queue, indexPacket, indexData)
 //@   modifies queue.indexPacket, queue.indexData, queue.$r
 //@   ghost-update at exit: queue.$r := pqpos(queue)
 //@   ensures [set] queue.indexPacket == indexPacket && queue.indexData == indexData
 //@ func (*PacketQueue).AddPacket
+//@   cut typeinv PacketQueue/content by this.$readable ==> old(pqc(this, j, i))
 //@   requires [nonnil] packet != nil
 //@   requires [not-queued] forall j int :: 0 <= j && j < len(queue.queue) ==> queue.queue[j] != packet
 //@   modifies queue.queue, queue.recvEOM, queue.$in, queue.$end, queue.$r, packet.$pos, all elems *tds.Packet
@@ -338,7 +361,67 @@ package tds
 //@   ghost-update at exit: packet.$pos := old(queue.$end)
 //@   ghost-update at exit: queue.$end := old(queue.$end) + len(packet.Data)
 //@   ghost-update at exit: queue.$r := pqpos(queue)
-//@   ensures [appended] queue.$end == old(queue.$end) + len(packet.Data) && (queue.$rx ==> queue.$r == old(queue.$r))
+//@   ensures [appended] queue.$end == old(queue.$end) + len(packet.Data) && (queue.$readable ==> queue.$r == old(queue.$r))
 //@   ensures [eom] queue.recvEOM == (old(queue.recvEOM) || packet.Header.Status % 2 == 1)
 //@   ensures [content] forall k int :: 0 <= k && k < len(packet.Data) ==> queue.$in[old(queue.$end) + k] == packet.Data[k]
 //@   ensures [prefix] forall k int :: k < old(queue.$end) ==> queue.$in[k] == old(queue.$in[k])
+
+//@ # helper readers (inlined at their call sites; verified on their own under the same discipline)
+//@ func readLengthBytes returns (length, err)
+//@   requires [readable] ch.$readable
+//@ func (*fieldFmtBase).readFromBase returns (n, err)
+//@   requires [readable] ch.$readable
+//@ func (*fieldFmtBaseScale).readFromScale returns (n, err)
+//@   requires [readable] ch.$readable
+//@ func (*fieldFmtBasePrecision).readFromPrecision returns (n, err)
+//@   requires [readable] ch.$readable
+//@ func (*ParamFmtPackage).ReadFromField returns (f, n, err)
+//@   requires [readable] ch.$readable
+//@ func (*RowFmtPackage).ReadFromField returns (f, n, err)
+//@   requires [readable] ch.$readable
+//@ func (*EnvChangePackageField).ReadFrom returns (n, err)
+//@   requires [readable] ch.$readable
+
+//@ func NewPacketQueue returns (q)
+//@   modifies
+//@   ensures [fresh] q != nil && fresh(q) && len(q.queue) == 0 && q.indexPacket == 0 && q.indexData == 0 && !q.recvEOM
+//@ func (*PacketQueue).Reset
+//@   modifies queue.queue, queue.indexPacket, queue.indexData, queue.recvEOM, queue.$r
+//@   ghost-update at exit: queue.$r := queue.$end
+//@   ensures [empty] len(queue.queue) == 0 && queue.indexPacket == 0 && queue.indexData == 0 && !queue.recvEOM
+//@   ensures [skipped] queue.$r == queue.$end
+//@ func (*PacketQueue).AllPacketsConsumed returns (r) inline
+//@   modifies
+//@   ensures [exact] queue.$readable ==> r == (queue.indexPacket >= len(queue.queue) || (queue.indexPacket == len(queue.queue) - 1 && queue.indexData == len(queue.queue[queue.indexPacket].Data)))
+//@   ensures [at-end] queue.$readable && r ==> queue.$r == queue.$end
+//@ func (*PacketQueue).IsEOM returns (r) inline
+//@   modifies
+//@   ensures [eom] queue.$readable && r ==> queue.$r == queue.$end && queue.recvEOM
+//@ pred pqdropped(q *PacketQueue) { old(len(q.queue)) - now(len(q.queue)) }
+//@ func (*PacketQueue).DiscardUntilCurrentPosition
+//@   cut typeinv PacketQueue/elems by old(pqelem(this, j + pqdropped(this)))
+//@   cut typeinv PacketQueue/s1 by this.$readable ==> old(pqs1at(this, j + pqdropped(this)))
+//@   cut typeinv PacketQueue/s3 by this.$readable ==> old(pqs3at(this, j + pqdropped(this)))
+//@   cut typeinv PacketQueue/content by this.$readable ==> old(pqc(this, j + pqdropped(this), i))
+//@   modifies queue.queue, queue.indexPacket, queue.indexData
+//@   ensures [position-kept] queue.$readable ==> queue.$r == old(queue.$r)
+//@ func (*PacketQueue).Bytes returns (bs, err)
+//@   modifies queue.indexPacket, queue.indexData, queue.$r, queue.$dry
+//@   ghost-update at exit: queue.$r := pqpos(queue)
+//@   ghost-update at exit: queue.$dry := old(queue.$dry) || err != nil
+//@   loop 0:
+//@     invariant [bounds] 0 <= bsOffset && bsOffset < n && len(bs) == n && fresh(bs)
+//@     invariant [pos] pqvalid(queue, queue.indexPacket, queue.indexData) && pqpos(queue) == old(queue.$r) + bsOffset
+//@     invariant [copied] forall k int :: 0 <= k && k < bsOffset ==> bs[k] == queue.$in[old(queue.$r) + k] by head(pqc(queue, queue.indexPacket, queue.indexData + (k - bsOffset)))
+//@     invariant [content] queue.$readable ==> pqcontent(queue)
+//@     exitinv [copied] forall k int :: 0 <= k && k < bsOffset ==> bs[k] == queue.$in[old(queue.$r) + k] by head(pqc(queue, queue.indexPacket, queue.indexData + (k - bsOffset)))
+//@     exitinv [pos] len(bs) == n && pqvalid(queue, queue.indexPacket, queue.indexData) && pqpos(queue) == old(queue.$r) + bsOffset
+
+//@ # Read is PacketQueue's io.Reader face; it is specified over the queue's own stream
+//@ # (the transport ghosts of io.Reader do not apply to it).
+//@ func (*PacketQueue).Read returns (n, err) noiface:io.Reader.Read
+//@   requires [chwf] chwf(queue)
+//@   requires [readable] queue.$readable
+//@   modifies queue.indexPacket, queue.indexData, queue.$r, queue.$dry, elems(p)
+//@   ensures [fills-buffer] err == nil ==> n == len(p) && (forall k int :: 0 <= k && k < n ==> p[k] == queue.$in[old(queue.$r) + k])
+//@   ensures [advances] err == nil ==> queue.$r == old(queue.$r) + n
